@@ -202,8 +202,8 @@ theorem enclosingModule_self {g : Graph} {p : Nat} {chain : List Nat} {psc : Sco
     is `m`: an error when `m` is the root module (or there is no module), else
     resolution continues in the scope of `m`'s parent module. -/
 theorem super_step {g : Graph} (wf : WF g) (mok : ModulesOk g) {s : Nat} {chain : List Nat}
-    (hc : Ancestors g s chain) (rest : List Name) :
-    supers g s SUPER rest =
+    (hc : Ancestors g s chain) (rest : List Name) (after : Bool) :
+    supers g s SUPER rest after =
       match enclosingModule g chain with
       | none => .err .tooManySuper
       | some (_, _, none) => .err .tooManySuper
@@ -218,7 +218,7 @@ theorem super_step {g : Graph} (wf : WF g) (mok : ModulesOk g) {s : Nat} {chain 
             | some d =>
               match rest with
               | [] => .ok ⟨SUPER, d, []⟩
-              | x :: rest' => supers g p x rest'
+              | x :: rest' => supers g p x rest' true
           | _ => .panic .parentNotModule := by
   conv => lhs; unfold supers
   simp only [↓reduceIte, parentModule_eq wf hc, parentModuleSpec]
@@ -284,15 +284,15 @@ theorem super_n {g : Graph} (wf : WF g) (mok : ModulesOk g) :
     ∀ (n : Nat) (s : Nat) (chain : List Nat) (m : Nat) (name : RName) (pm : Option Nat)
       (x : Name) (rest : List Name),
       Ancestors g s chain → enclosingModule g chain = some (m, name, pm) →
-      x ≠ SUPER →
-      supers g s SUPER (List.replicate n SUPER ++ x :: rest) =
+      x ≠ SUPER → ∀ after : Bool,
+      supers g s SUPER (List.replicate n SUPER ++ x :: rest) after =
         match nthUp g (n + 1) m with
         | none => .err .tooManySuper
-        | some p => segments g p x rest true := by
+        | some p => segments g p x rest false := by
   intro n
   induction n with
   | zero =>
-    intro s chain m name pm x rest hc he hx
+    intro s chain m name pm x rest hc he hx after
     rw [super_step wf mok hc]
     obtain ⟨sc, hsm, hkm⟩ := enclosingModule_spec he
     have hm : moduleUp g m = pm := moduleUp_of_kind hsm hkm
@@ -308,7 +308,7 @@ theorem super_n {g : Graph} (wf : WF g) (mok : ModulesOk g) :
       conv => lhs; unfold supers
       simp [hx]
   | succ n ih =>
-    intro s chain m name pm x rest hc he hx
+    intro s chain m name pm x rest hc he hx after
     rw [List.replicate_succ, List.cons_append, super_step wf mok hc]
     obtain ⟨sc, hsm, hkm⟩ := enclosingModule_spec he
     have hm : moduleUp g m = pm := moduleUp_of_kind hsm hkm
@@ -327,7 +327,7 @@ theorem super_n {g : Graph} (wf : WF g) (mok : ModulesOk g) :
         · rw [List.getElem?_eq_none h] at hps; cases hps
       obtain ⟨pchain, hpc⟩ := ancestors_exist wf p hplt
       have hpe := enclosingModule_self hpc hps hpk
-      rw [ih p pchain p pn ppm x rest hpc hpe hx]
+      rw [ih p pchain p pn ppm x rest hpc hpe hx true]
       simp only [nthUp, hm, Option.bind]
 
 end RotoV.Scope
